@@ -18,31 +18,37 @@ Lemma tget_tasks_only g g' i : g_tasks g = g_tasks g' -> tget g i = tget g' i.
 Proof. intros H. unfold tget. rewrite H. reflexivity. Qed.
 
 (* the script loop = the --no-merge replay loop, callback by line, filtered by UFTRACE_FUNCS *)
-Lemma script_loop_run forks funcs tasks : forall l g g', g_tasks g = g_tasks g' ->
+Lemma script_loop_run forks funcs tasks : forall l g g', g_tasks g = g_tasks g' -> SJ g = SJ g' ->
   script_loop forks funcs tasks l g =
   filter (cb_keep funcs) (map cb_of_event (events_of (fst (run (mkcfg false forks) tasks l g')))).
 Proof.
-  induction l as [|[i r] tl IH]; intros g g' Hg; [reflexivity|].
+  induction l as [|[i r] tl IH]; intros g g' Hg Hsj; [reflexivity|].
   rewrite run_nofold_cons by reflexivity.
   cbn [script_loop].
   pose proof (consume_tasks_only tasks g g' i r Hg) as Hc.
   pose proof (tget_tasks_only _ _ i Hc) as Ht.
   pose proof (tget_tasks_only _ _ i Hg) as Hp.
-  unfold step. rewrite <- Hp, <- Ht. unfold is_fork. cbn [c_forks].
+  assert (Hsj1 : (g_sjd (consume tasks g i r), g_sjc (consume tasks g i r)) =
+                 (g_sjd (consume tasks g' i r), g_sjc (consume tasks g' i r))) by exact Hsj.
+  unfold step. rewrite <- Hp, <- Ht. cbn [g_sjd g_sjc g_first]. rewrite <- Hsj1.
   set (pend := t_lost (tget g i)).
   set (ts1 := stamp (tget (consume tasks g i r) i) (r_time r)).
-  set (depth := if pend then t_sc ts1 - 1 else t_dd ts1).
-  set (ts2 := if existsb (N.eqb (r_addr r)) forks then set_fork ts1 (depth + 1) else ts1).
   destruct (r_type r) eqn:Hty.
   - (* ENTRY *)
-    match goal with |- context [run _ tasks tl ?G] => specialize (IH (tset (consume tasks g i r) i (set_dd ts2 (depth + 1))) G) end.
+    set (depth := if pend then t_sc ts1 - 1 else t_dd ts1).
+    pose proof (fixup_fields (mkcfg false forks) r depth ts1 (g_sjd (consume tasks g i r), g_sjc (consume tasks g i r))) as HF.
+    destruct (fixup_entry (mkcfg false forks) r depth ts1 (g_sjd (consume tasks g i r), g_sjc (consume tasks g i r))) as [ts2 sj].
+    cbn [fst snd] in *. destruct HF as (_ & _ & _ & _ & Hts & _).
+    match goal with |- context [run _ tasks tl ?G] =>
+      specialize (IH (tset (set_sj (consume tasks g i r) sj) i (update_entry r depth ts2 sj)) G) end.
     match goal with |- context [run ?C tasks tl ?G] => destruct (run C tasks tl G) as [out g2'] eqn:Er end.
     cbn [fst] in *. rewrite events_of_app, map_app, filter_app, IH.
     + f_equal. rewrite events_warn_app by apply warn_of_warn. unfold events_of_line, mk.
       cbn [l_kind l_task l_indent l_name l_time l_dur map cb_of_event e_open e_task e_indent e_name e_time e_dur filter cb_keep].
-      replace (t_ts ts2) with (r_time r) by (unfold ts2, ts1; destruct (existsb (N.eqb (r_addr r)) forks); reflexivity).
+      rewrite Hts. unfold ts1. cbn [stamp t_ts].
       destruct (match_funcs funcs (r_addr r)); reflexivity.
-    + unfold tset. cbn [g_tasks]. rewrite Hc. reflexivity.
+    + unfold tset, set_sj. cbn [g_tasks]. rewrite Hc. reflexivity.
+    + reflexivity.
   - (* EXIT *)
     match goal with |- context [run _ tasks tl ?G] => specialize (IH (tset (consume tasks g i r) i (set_dd ts1 (if pend then t_sc ts1 else N.pred (t_dd ts1)))) G) end.
     match goal with |- context [run ?C tasks tl ?G] => destruct (run C tasks tl G) as [out g2'] eqn:Er end.
@@ -52,6 +58,7 @@ Proof.
            set_dd stamp t_dd t_ts t_stack t_sc].
       destruct (match_funcs funcs (r_addr r)); reflexivity.
     + unfold tset. cbn [g_tasks]. rewrite Hc. reflexivity.
+    + unfold SJ, tset. cbn [g_sjd g_sjc]. exact Hsj1.
   - (* LOST: no callback, no call shown *)
     match goal with |- context [run _ tasks tl ?G] => specialize (IH (consume tasks g i r) G) end.
     match goal with |- context [run ?C tasks tl ?G] => destruct (run C tasks tl G) as [out g2'] eqn:Er end.
@@ -59,6 +66,7 @@ Proof.
     + rewrite events_warn_lost; [reflexivity|apply warn_of_warn|].
       destruct (t_usc _ =? 0); repeat constructor.
     + cbn [g_tasks]. exact Hc.
+    + unfold SJ. cbn [g_sjd g_sjc]. exact Hsj1.
 Qed.
 
 Lemma filter_true {A} (l : list A) : filter (fun _ => true) l = l.
@@ -74,7 +82,7 @@ Theorem script_same_calls forks sel tasks :
   CBegin :: map cb_of_event (events_of (fst (replay_raw (mkcfg false forks) sel tasks))) ++ [CEnd].
 Proof.
   unfold script_run, replay_raw. f_equal. f_equal.
-  rewrite (script_loop_run forks [] tasks _ _ _ eq_refl).
+  rewrite (script_loop_run forks [] tasks _ _ _ eq_refl eq_refl).
   erewrite filter_ext; [apply filter_true|]. intros c. apply cb_keep_nil.
 Qed.
 
@@ -84,7 +92,7 @@ Theorem script_funcs_filter forks funcs sel tasks :
 Proof.
   rewrite script_same_calls. unfold script_run, replay_raw.
   cbn [filter cb_keep]. f_equal. rewrite filter_app. cbn [filter cb_keep]. f_equal.
-  apply (script_loop_run forks funcs tasks _ _ _ eq_refl).
+  apply (script_loop_run forks funcs tasks _ _ _ eq_refl eq_refl).
 Qed.
 
 (* against the default (folded) replay view: same calls, indentation and durations *)
@@ -104,11 +112,11 @@ Proof.
   unfold events_of_line. destruct (l_kind l); repeat constructor; cbn; intros; try reflexivity; discriminate.
 Qed.
 
-Theorem script_matches_default_replay forks sel tasks :
+Theorem script_matches_default_replay forks sel tasks : no_longjmp_tasks tasks = true ->
   flat_map cb_core (script_run forks [] sel tasks) =
   map core_of (events_of (fst (replay_raw (mkcfg true forks) sel tasks))).
 Proof.
-  rewrite fold_is_presentation, script_same_calls. cbn [flat_map cb_core app].
+  intros Hnl. rewrite (fold_is_presentation _ _ _ Hnl), script_same_calls. cbn [flat_map cb_core app].
   rewrite flat_map_app. cbn [flat_map cb_core]. rewrite app_nil_r.
   pose proof (open_events_dur0 (fst (replay_raw (mkcfg false forks) sel tasks))) as H.
   induction H as [|e es He _ IH]; [reflexivity|]. cbn [map flat_map]. rewrite IH. f_equal.
